@@ -141,12 +141,51 @@ Theorem C10_touch_never_aborts : forall s cw u cur,
 Proof. exact update_user_energy_spec. Qed.
 Print Assumptions C10_touch_never_aborts.
 
-(** PARTIAL (interim): the arithmetic core of "never more than collected". *)
-Theorem C10_sum_partial : forall tot E t, 0 < E -> Forall (fun p => 0 <= snd p) tot ->
+(** Sum: over any history ([grun] = [run] with a ghost ledger: [paid] sums the per-week payments of all
+    successful claims, [cred] the deposits credited to a week — depositSwapFees payments and the extra locked
+    tokens per block), what was paid out for a (week, token) never exceeds what was deposited for it; the
+    same holds for the week's frozen total plus whatever is still accumulated. *)
+Theorem C10_sum : forall epoch ops w t,
+  let g := snd (grun (init_fc epoch, g0) ops) in let f := fst (grun (init_fc epoch, g0) ops) in
+  0 <= paid g w t /\ paid g w t <= cred g w t /\ gR f w t + gA f w t <= cred g w t.
+Proof. exact paid_le_credited. Qed.
+Print Assumptions C10_sum.
+
+Theorem C10_sum_ledger_is_the_run : forall epoch ops, fst (grun (init_fc epoch, g0) ops) = run (init_fc epoch) ops.
+Proof. intros. apply grun_fst. Qed.
+Print Assumptions C10_sum_ledger_is_the_run.
+
+(** the arithmetic core: floor shares of claimers whose energies add up to at most the total energy add up
+    to at most the total (the energies do add up to at most it: C10_total_energy and the ledger invariant) *)
+Theorem C10_sum_core : forall tot E t, 0 < E -> Forall (fun p => 0 <= snd p) tot ->
   forall es, Forall (fun e => 0 <= e) es -> zsum es <= E ->
   zsum (map (fun e => tok_sum (week_share tot e E) t) es) <= tok_sum tot t.
 Proof. exact shares_sum_le. Qed.
-Print Assumptions C10_sum_partial.
+Print Assumptions C10_sum_core.
+
+(** Solvent: in every reachable state the collector's balance of every fungible fee token covers all that
+    can still be claimed — summed over the claimable window (current week and the USER_MAX_CLAIM_WEEKS before
+    it): the accumulated deposits plus the not yet paid part of the frozen total.  (Locked-token rewards are
+    minted by the locking contract, not held.) *)
+Theorem C10_solvent : forall epoch ops t, t <> LOCKED ->
+  let g := snd (grun (init_fc epoch, g0) ops) in let f := fst (grun (init_fc epoch, g0) ops) in
+  wsum (pot f g t) (cur_week f - USER_MAX_CLAIM_WEEKS) window_len <= aget (fc_bal f) t /\
+  (forall w, 0 <= pot f g t w).
+Proof. exact balance_covers. Qed.
+Print Assumptions C10_solvent.
+
+(** a claim pays from the balance exactly what it reports for the fungible tokens *)
+Theorem C10_pays_what_it_reports : forall f c orig boosted f' outs det,
+  FWf f -> ep_claim f c orig boosted = Ok (f', outs, det) ->
+  outs = unlocked_part (flat_rewards det) ++
+         (if 0 <? locked_total (flat_rewards det) then [(LOCKED, locked_total (flat_rewards det))] else []) /\
+  forall t, aget (fc_bal f') t = aget (fc_bal f) t - tok_sum (unlocked_part (flat_rewards det)) t.
+Proof.
+  intros f c orig boosted f' outs det Hwf Hs. destruct (ep_claim_inv _ _ _ _ _ _ _ Hs) as (_ & dest & Hc).
+  destruct (claim_rewards_char _ _ _ _ _ _ Hwf Hc) as (cw & _ & _ & _ & Ho & Hp).
+  split; [exact Ho | apply (pay_out_effect _ _ _ Hp)].
+Qed.
+Print Assumptions C10_pays_what_it_reports.
 
 (** Non-vacuity: two users with different locks, deposits of two tokens over two weeks, a user skipping
     six weeks, claims that pay inexact shares. *)
@@ -166,5 +205,8 @@ Example C10_nonvacuous :
       | Err _ => False
       end
   | _ => False
-  end /\ run_log (init_fc 5) c10_example_ops = [(1, 1); (2, 1); (2, 2); (1, 5); (1, 6); (1, 7); (1, 8)].
+  end /\ run_log (init_fc 5) c10_example_ops = [(1, 1); (2, 1); (2, 2); (1, 5); (1, 6); (1, 7); (1, 8)] /\
+  let fg := grun (init_fc 5, g0) c10_example_ops in
+  paid (snd fg) 1 1 = 999 /\ cred (snd fg) 1 1 = 1000 /\ paid (snd fg) 2 1 = 202 /\ cred (snd fg) 2 1 = 500 /\
+  aget (fc_bal (fst fg)) 1 = 299 /\ view_total_energy (fst fg) 8 = 0 /\ view_last_global (fst fg) = 9.
 Proof. vm_compute. repeat split. Qed.
